@@ -475,8 +475,11 @@ def check_population(tier, want):
                 ind.fitness = f(ind.genome) if (rng.random() < 0.7 or near_ties) else rng.choice([0.0, 1.0])
                 table[ind.genome.tobytes()] = ind.fitness
             np.random.seed(trial)
+            from pyhms.demes.single_pop_eas.sea import GAStyleSEA, SEAWithCrossover
             for eng in (DE(use_dither=False, crossover_probability=0.9, f=0.8), DE(use_dither=True, crossover_probability=0.5), SHADE(5, n),
-                        SEA.create(problem=fp, mutation_std=1.0, k_elites=1)):
+                        SEA.create(problem=fp, mutation_std=1.0, k_elites=1),
+                        SEAWithCrossover.create(problem=fp, mutation_std=1.0, k_elites=1, p_mutation=0.3, p_crossover=0.9),
+                        GAStyleSEA.create(problem=fp, k_elites=1, p_mutation=0.3, p_crossover=0.9)):
                 res = eng.run(parents)
                 case(True, dict(fn=type(eng).__name__ + ".run", maximize=mx, n=n) if trial == 0 else None)
                 if len(res) != n:
@@ -485,7 +488,7 @@ def check_population(tier, want):
                 ra = sorted((i.fitness for i in res), reverse=mx)
                 if better(mx, pa[0], ra[0]):
                     viol("C12", f"{type(eng).__name__}.run lost the best fitness", dict(maximize=mx, before=pa[0], after=ra[0]))
-                if not isinstance(eng, SEA.__mro__[0]) and type(eng).__name__ in ("DE", "SHADE"):
+                if type(eng).__name__ in ("DE", "SHADE"):
                     for k, (x, y) in enumerate(zip(pa, ra)):
                         if better(mx, x, y):
                             viol("C12", f"{type(eng).__name__}.run: the k-th best fitness got worse", dict(k=k, maximize=mx))
